@@ -149,6 +149,7 @@ type Stats struct {
 	Forks      int
 	Steps      int
 	Queries    [3]int
+	Fallbacks  [3]int // queries the main solver left unknown, by verdict of the fallback solvers
 	SolverTime time.Duration
 	Funcs      map[string]int
 	Reached    map[string]int
@@ -332,6 +333,9 @@ func (sh *Shared) Run(pkgPath, fnName string, workers int, maxPaths int) (*Stats
 			p.mu.Lock()
 			for k, v := range i.solver.Queries {
 				st.Queries[k] += v
+			}
+			for k, v := range i.solver.Fallbacks {
+				st.Fallbacks[k] += v
 			}
 			st.SolverTime += i.solver.Time
 			for f, n := range i.funcSteps {
